@@ -349,8 +349,8 @@ def minimise(sc, p, ident, base):
 def run(ctx: Ctx):
     ctx.cov["rule"] = ("seeded scenarios (1-3 tables, NULLs, 1-3 symmetric blocking rules, 4 comparisons, optional u+EM training, "
                        "clustering) x random compositions of re-presentations (row/table order, column names incl. upper case, SQL keywords, "
-                       "spaces; uid relabel/retype/rename; one-table link formulation; rule order; salting; materialisation flags; debug mode; "
-                       "threads). Non-trivial: >=2 components changed and >=1 scored pair; distinct by (scenario, presentation).")
+                       "spaces; uid relabel/retype/rename; dataset aliases renamed incl. order-reversing; one-table link formulation; rule order; "
+                       "salting; materialisation flags; debug mode; threads); every fourth scenario runs on SQLite. Non-trivial: >=2 components changed and >=1 scored pair; distinct by (scenario, presentation).")
     ctx.trusted += [
         "X: DuckDB evaluates each canonical rule per pair (outcome matrix for the Gallina block model)",
         "scores / trained parameters / partitions of a presentation are compared with the canonical run in Python (tolerance 1e-9 / 1e-7); their agreement with the Gallina scoring, EM and clustering models is established by the C02, C03, C05 checks",
